@@ -867,6 +867,40 @@ fn spec_for0(property: &str, thorough: bool) -> (Spec, Oracles) {
     }
 }
 
+/// journal: [0,20) case in flight, [20,40) case of the last panic, [40,200) its location
+const JOURNAL_LEN: usize = 200;
+static JMAP: std::sync::atomic::AtomicPtr<u8> = std::sync::atomic::AtomicPtr::new(std::ptr::null_mut());
+
+fn journal_panic(location: &str) {
+    let p = JMAP.load(std::sync::atomic::Ordering::Relaxed);
+    if p.is_null() {
+        return;
+    }
+    unsafe {
+        std::ptr::copy_nonoverlapping(p, p.add(20), 20);
+        let b = location.as_bytes();
+        let n = b.len().min(159);
+        std::ptr::copy_nonoverlapping(b.as_ptr(), p.add(40), n);
+        *p.add(40 + n) = 0;
+    }
+}
+
+/// (case in flight, location of the last panic if it happened in that case)
+fn read_journal(path: &std::path::Path) -> (u64, Option<String>) {
+    let b = std::fs::read(path).unwrap_or_default();
+    let num = |r: std::ops::Range<usize>| -> u64 { b.get(r).and_then(|x| std::str::from_utf8(x).ok()).and_then(|s| s.trim_matches(char::from(0)).trim().parse().ok()).unwrap_or(u64::MAX) };
+    let idx = num(0..20.min(b.len()));
+    let pidx = if b.len() >= 40 { num(20..40) } else { u64::MAX };
+    let loc = if b.len() > 40 && pidx == idx && idx != u64::MAX {
+        let rest = &b[40..];
+        let end = rest.iter().position(|c| *c == 0).unwrap_or(rest.len());
+        std::str::from_utf8(&rest[..end]).ok().filter(|s| !s.is_empty()).map(|s| s.to_string())
+    } else {
+        None
+    };
+    (idx, loc)
+}
+
 pub fn worker_main(args: &[String]) -> i32 {
     // args: <property> <tier> <shard> <nshards> <journal> <out> [--only idx]
     crate::util::install_panic_hook();
@@ -888,16 +922,18 @@ pub fn worker_main(args: &[String]) -> i32 {
     let mut out = std::io::BufWriter::new(std::fs::File::create(&outp).expect("cannot create worker output"));
     let jf = std::fs::OpenOptions::new().create(true).read(true).write(true).truncate(true).open(&journal).expect("cannot create journal");
     // the journal is a shared mapping: recording the case in flight costs no system call
-    jf.set_len(20).expect("journal");
+    jf.set_len(JOURNAL_LEN as u64).expect("journal");
     let jmap: *mut u8 = unsafe {
         use std::os::unix::io::AsRawFd;
-        let p = libc::mmap(std::ptr::null_mut(), 20, libc::PROT_READ | libc::PROT_WRITE, libc::MAP_SHARED, jf.as_raw_fd(), 0);
+        let p = libc::mmap(std::ptr::null_mut(), JOURNAL_LEN, libc::PROT_READ | libc::PROT_WRITE, libc::MAP_SHARED, jf.as_raw_fd(), 0);
         if p == libc::MAP_FAILED {
             std::ptr::null_mut()
         } else {
             p as *mut u8
         }
     };
+    JMAP.store(jmap, std::sync::atomic::Ordering::Relaxed);
+    let _ = crate::util::PANIC_TAP.set(journal_panic);
     // watchdog: a case that runs for more than 3 s ends the process with exit code 3; the parent
     // attributes it to the journaled case (a hang / near-endless loop)
     static CASE_STARTED_MS: std::sync::atomic::AtomicU64 = std::sync::atomic::AtomicU64::new(0);
@@ -1033,7 +1069,7 @@ pub fn run_engine(property: &str, tier: &str, rep: &Report) -> bool {
     let t0 = Instant::now();
     let mut complete = true;
     // (case idx, why, kind)
-    let mut died: Vec<(u64, String, &'static str)> = vec![];
+    let mut died: Vec<(u64, String, String, Option<String>)> = vec![];
     let mut outs: Vec<std::path::PathBuf> = vec![];
     while !pending.is_empty() {
         std::thread::sleep(Duration::from_millis(50));
@@ -1043,9 +1079,9 @@ pub fn run_engine(property: &str, tier: &str, rep: &Report) -> bool {
                 Ok(Some(st)) => {
                     outs.push(r.out.clone());
                     if !st.success() {
-                        let idx: u64 = std::fs::read_to_string(&r.journal).unwrap_or_default().trim().parse().unwrap_or(u64::MAX);
-                        let kind = if st.code() == Some(3) { "hang" } else { "abort" };
-                        died.push((idx, format!("worker {} ended with {:?}", r.shard, st), kind));
+                        let (idx, ploc) = read_journal(&r.journal);
+                        let kind = if st.code() == Some(3) { "hang".to_string() } else { "abort".to_string() };
+                        died.push((idx, format!("worker {} ended with {:?}", r.shard, st), kind, ploc));
                         // carry on after the fatal case
                         if idx != u64::MAX && r.gen < 200 && t0.elapsed().as_secs_f64() < wall_cap {
                             match spawn_worker(&bin, &dir, property, tier, r.shard, nshards, idx + 1, r.gen + 1) {
@@ -1058,7 +1094,7 @@ pub fn run_engine(property: &str, tier: &str, rep: &Report) -> bool {
                     }
                 }
                 Ok(None) => {
-                    let idx = std::fs::read_to_string(&r.journal).unwrap_or_default();
+                    let idx = read_journal(&r.journal).0.to_string();
                     if idx != r.last_idx {
                         r.last_idx = idx;
                         r.last_change = Instant::now();
@@ -1082,7 +1118,7 @@ pub fn run_engine(property: &str, tier: &str, rep: &Report) -> bool {
     // already confirmed in this run are counted without re-execution
     let mut case_lookup: Option<(Spec, Ctx)> = None;
     let mut confirmed: std::collections::BTreeSet<String> = Default::default();
-    for (idx, why, kind) in died {
+    for (idx, why, kind, ploc) in died {
         if idx == u64::MAX {
             rep.machinery_error(format!("{} and left no journal", why));
             continue;
@@ -1101,7 +1137,12 @@ pub fn run_engine(property: &str, tier: &str, rep: &Report) -> bool {
             }
         });
         let (t, d) = found.unwrap_or((Target::Load, vec![]));
-        let class = format!("{:?}:{}", t, kind);
+        // an abort right after a panic (panic inside a destructor, panic in a no-unwind frame) is
+        // attributed to that panic's location, anything else to the decoder
+        let class = match &ploc {
+            Some(l) if kind == "abort" => format!("abort@{}", l),
+            _ => format!("{:?}:{}", t, kind),
+        };
         let mk = |detail: String| {
             Violation::new("process-death", class.clone(), detail).with_case(json!({"engine": "bytes", "idx": idx, "target": format!("{:?}", t), "hex": hex::encode(&d)}))
         };
